@@ -27,8 +27,17 @@ import (
 	"time"
 )
 
+// repoDir is /repo; VERIF_REPO points the driver at a scratch worktree instead
+// (development aid for running the checks against a seeded change without
+// touching /repo: build output, evidence and replays then go to build/alt).
+var repoDir = func() string {
+	if d := os.Getenv("VERIF_REPO"); d != "" {
+		return d
+	}
+	return "/repo"
+}()
+
 const (
-	repoDir = "/repo"
 	goRoot  = "/opt/veriftools/go1.26.8"
 	goBin   = goRoot + "/bin/go"
 )
@@ -41,7 +50,20 @@ var verifDir = func() string {
 	return "/verif"
 }()
 
-var buildDir = filepath.Join(verifDir, "build")
+var buildDir = func() string {
+	if os.Getenv("VERIF_REPO") != "" {
+		return filepath.Join(verifDir, "build", "alt", sanitize(os.Getenv("VERIF_REPO")))
+	}
+	return filepath.Join(verifDir, "build")
+}()
+
+// outDir holds evidence/ and replays/: /verif itself, or the alt build directory.
+var outDir = func() string {
+	if os.Getenv("VERIF_REPO") != "" {
+		return buildDir
+	}
+	return verifDir
+}()
 
 type propDef struct {
 	ID         string
@@ -636,7 +658,7 @@ func cmdCheck(id, tier string) int {
 	exit := 0
 	var knownHit []string
 	nviol := 0
-	must(os.MkdirAll(filepath.Join(verifDir, "replays"), 0o755))
+	must(os.MkdirAll(filepath.Join(outDir, "replays"), 0o755))
 	for _, k := range order {
 		v := bySig[k]
 		matched := false
@@ -654,7 +676,7 @@ func cmdCheck(id, tier string) int {
 		nviol++
 		rf := replayFile{Property: id, Harness: p.Pkg, RepoHead: repoHead(), Seed: seed, Tier: tier, Violation: v}
 		name := fmt.Sprintf("%s-%d-%s.json", id, seed, sanitize(v.Class+"-"+v.Signature))
-		path := filepath.Join(verifDir, "replays", name)
+		path := filepath.Join(outDir, "replays", name)
 		rf.Replay = fmt.Sprintf("./check replay %s %s", id, path)
 		b, _ := json.MarshalIndent(rf, "", " ")
 		must(os.WriteFile(path, b, 0o644))
@@ -720,9 +742,9 @@ func cmdCheck(id, tier string) int {
 		fmt.Fprintf(os.Stderr, "vdriver: only %d distinct non-trivial executions; refusing to call that evidence\n", distinct)
 		exit = 2
 	}
-	must(os.MkdirAll(filepath.Join(verifDir, "evidence"), 0o755))
+	must(os.MkdirAll(filepath.Join(outDir, "evidence"), 0o755))
 	b, _ := json.MarshalIndent(ev, "", " ")
-	must(os.WriteFile(filepath.Join(verifDir, "evidence", id+".json"), b, 0o644))
+	must(os.WriteFile(filepath.Join(outDir, "evidence", id+".json"), b, 0o644))
 	fmt.Printf("%s %s: runs=%d distinct=%d steps=%d sim=%.0fs wall=%.1fs violations=%d known=%d\n", id, tier, agg.Runs, distinct, agg.Steps, float64(agg.SimTimeNs)/1e9, wallS, nviol, len(knownHit))
 	return exit
 }
